@@ -131,3 +131,76 @@ def check_avail_unsigned(rep, mod, offz, offi):
             ok = not signed or (fn, i.ops[1]) in SIGNED_OK
             R.check(ok, mod.where(f, i), '%s compares a value computed from avail_in / avail_out as a SIGNED %s quantity (%s): a count of 2^31 bytes or more is taken for negative' % (fn, i.ty, i.extra['pred']),
                     key='L-AVAIL-UNSIGNED|%s|%s' % (fn, i.line or 0), sample='%s: unsigned' % fn if fn == 'fixed_size_read' else None)
+
+
+def check_zero_run_siblings(rep, mod):
+    """RFC 1951 code-length symbols 17 and 18 both mean "a run of zero lengths" and differ only in the run length they encode (3 + 3 bits, 11 + 7 bits)"""
+    R = rep.rule('R-ZERO-RUN-SIBLINGS', 'setup_dynamic_header: the arm that handles code-length symbol 17 and the arm that handles symbol 18 perform the same operations (multiset of instructions other than branches / phis '
+                 'in the blocks private to each arm: same loads, stores, address steps, comparisons and calls) - they differ only in the constants of the run length: what one arm does to the cursor, to the pointer to '
+                 'the previous length and at the switch from the literal/length to the distance table, the other does too', floor=1, unit='arm pairs')
+    import collections
+    f = mod.funcs.get('setup_dynamic_header')
+    if f is None:
+        raise AnalysisBroken('setup_dynamic_header not found')
+    arms = {}
+    for b in f.order:
+        t = f.blocks[b].insns[-1]
+        c = f.defs.get(t.extra.get('cond', '')) if t.op == 'br' and t.extra.get('cond') else None
+        if c is not None and c.op == 'icmp' and c.extra['pred'] == 'eq' and c.ops[1] in ('17', '18'):
+            arms[c.ops[1]] = (t.extra['targets'][0], c)
+    if set(arms) != {'17', '18'}:
+        raise AnalysisBroken('setup_dynamic_header: arms for symbols 17 / 18 not found')
+    heads = {h for h in f.order if any(f.dominates(h, p_) for p_ in f.blocks[h].preds)} if hasattr(f.blocks[f.order[0]], 'preds') else set()
+
+    def region(start):
+        seen, work = [], [start]
+        while work:
+            b = work.pop(0)
+            if b in seen or b in heads:
+                continue
+            seen.append(b)
+            work += (f.blocks[b].insns[-1].extra.get('targets') or [])
+        return seen
+    ra, rb = region(arms['17'][0]), region(arms['18'][0])
+    ea, eb = [x for x in ra if x not in rb], [x for x in rb if x not in ra]
+
+    def sig(blocks):
+        out = collections.Counter()
+        for bl in blocks:
+            for i in f.blocks[bl].insns:
+                if i.op in ('br', 'phi') or (i.op == 'call' and (i.callee or '').startswith('llvm.dbg')):
+                    continue
+                out[(i.op, i.extra.get('pred') if i.op == 'icmp' else None, re.sub(r'\.\d+$', '', i.callee) if i.op == 'call' else None)] += 1
+        return out
+    sa, sb = sig(ea), sig(eb)
+    if sum(sa.values()) < 10:
+        raise AnalysisBroken('setup_dynamic_header: the arm for symbol 17 has only %d instructions' % sum(sa.values()))
+    R.instance()
+    d1, d2 = sa - sb, sb - sa
+    R.check(not d1 and not d2, mod.where(f, arms['18'][1]), 'setup_dynamic_header treats the two zero-run symbols differently: only the arm for 17 has %s, only the arm for 18 has %s - a run written with one of them leaves the '
+            'cursor / previous-length pointer / table switch in a different state than the same run written with the other' % (dict(d1) or 'nothing', dict(d2) or 'nothing'), key='R-ZERO-RUN-SIBLINGS',
+            sample='%d operations in each arm' % sum(sa.values()))
+
+
+def check_refill_in_loop(rep, mod):
+    """the portable block decoder consumes up to 48 bits per iteration (a packed entry, a distance code, their extra bits) from a 64-bit buffer: the buffer is topped up once per iteration"""
+    R = rep.rule('R-REFILL-IN-LOOP', 'decode_huffman_code_block_stateless_base: inside the decode loop a call of inflate_in_load dominates the call of decode_next_lit_len (the bit buffer is refilled in every iteration '
+                 'before a symbol group is decoded; the decode helpers only refill when the buffer cannot hold one code, not a whole group with its extra bits)', floor=1, unit='decode loops')
+    f = mod.funcs.get('decode_huffman_code_block_stateless_base')
+    if f is None:
+        raise AnalysisBroken('decode_huffman_code_block_stateless_base not found')
+    dec = [i for i in f.all_insns() if i.op == 'call' and re.sub(r'\.\d+$', '', i.callee or '') == 'decode_next_lit_len']
+    loads = [i for i in f.all_insns() if i.op == 'call' and re.sub(r'\.\d+$', '', i.callee or '') == 'inflate_in_load']
+    if not dec:
+        raise AnalysisBroken('no call of decode_next_lit_len in the base decoder')
+    loops = irrules.natural_loops(f)
+    for d in dec:
+        R.instance()
+        inner = [(len(L), h, L) for h, L in loops.items() if d.block in L]
+        if not inner:
+            raise AnalysisBroken('decode_next_lit_len is not called inside a loop')
+        _, h, L = min(inner)
+        pos = {id(i): n for n, i in enumerate(f.blocks[d.block].insns)}
+        ok = any(l.block in L and ((l.block == d.block and pos.get(id(l), 1 << 30) < pos[id(d)]) or (l.block != d.block and f.dominates(l.block, d.block))) for l in loads)
+        R.check(ok, mod.where(f, d), 'the decode loop calls decode_next_lit_len without a preceding inflate_in_load in the same iteration: a length symbol whose code and extra bits need more bits than are left is decoded from '
+                'an exhausted buffer although input is available', key='R-REFILL-IN-LOOP', sample='refill dominates the decode in the loop at %s' % h)
